@@ -258,14 +258,14 @@ def run(chk, P):
     r19_6(chk, P)
     chk.floor('R19.6', 4)
     r19_5(chk, P)
-    chk.floor('R19.5', 2)
+    chk.floor('R19.5', 1)
     r19_1(chk, P)
     chk.floor('R19.1', 5)
     r19_2_3(chk, P)
-    chk.floor('R19.2', 6)
-    chk.floor('R19.3', 3)
+    chk.floor('R19.2', 4)
+    chk.floor('R19.3', 2)
     r19_4(chk, P)
-    chk.floor('R19.4', 4)
+    chk.floor('R19.4', 3)
     chk.trusted += ['clang 14 front end', 'symbolic upper bounds of the K4 domain (i < n, n <= n1, n <= n2 closed transitively)']
     return ('Sibling, order and range rules over the lap entry points and helpers decide that a lapped seek is its plain '
             'counterpart plus a splice confined to min(n1,n2) samples, performed after collecting, seeking and priming in that '
